@@ -124,7 +124,16 @@ func (st *State) heap(key, sort string) string {
 	st.hsort[key] = sort
 	st.declare(n, sort)
 	st.heaps[key] = n
+	if ax, ok := heapInvariant[key]; ok {
+		st.assume(strings.ReplaceAll(ax, "$H", n))
+	}
 	return n
+}
+
+// heapInvariant: type invariants of initial heap contents, by heap key (filled by Sorts on demand).
+var heapInvariant = map[string]string{
+	"HS_byte": "(forall ((r Int) (k Int)) (! (and (<= 0 (select (select $H r) k)) (<= (select (select $H r) k) 255)) :pattern ((select (select $H r) k))))",
+	"FB":      "(forall ((r Int) (k Int)) (! (and (<= 0 (select (select $H r) k)) (<= (select (select $H r) k) 255)) :pattern ((select (select $H r) k))))",
 }
 
 func and(parts ...string) string {
